@@ -13,7 +13,7 @@ PROPS = {
                      "StubGen.C09.convert_on_legal", "StubGen.C09.convert_idempotent", "StubGen.C09.annotation_iff_differs",
                      "StubGen.C09.recover_eq", "StubGen.C09.recover_flag_independent", "StubGen.C09.no_annotation_off",
                      "StubGen.Tables.name_annotation_form"],
-        "stages": [stage_names.run],
+        "stages": [stage_names.run, stage_gen.run],
     },
     "C13": {
         "modules": ["StubGen.Theorems.C13"],
